@@ -26,7 +26,8 @@
     transformed explicit_terms, for every number of layers, any densities, both layouts
     (theorems C10_sw_...; proofs in Thm/ShallowWater.v). *)
 From Dino Require Import Base.Ops Base.Sums Base.Inst Gen.DerivExprs Model.SHT Model.Deriv Model.Invariants Model.Sigma Model.Implicit
-     Model.PrimEq Model.Symmetry Model.ShallowWater Thm.Deriv Thm.Implicit Thm.Symmetry Thm.ShallowWater.
+     Model.PrimEq Model.Symmetry Model.ShallowWater Model.Legendre Gen.Legendre Thm.Deriv Thm.Implicit Thm.Symmetry Thm.ShallowWater
+     Thm.Legendre Thm.SymmetryLegendre.
 From Coq Require Import Qcanon.
 Local Open Scope F_scope.
 
@@ -639,6 +640,188 @@ Proof.
   - intro H. apply (f_equal (fun q : Qc => Qeq_bool q 0)) in H. vm_compute in H. discriminate H.
 Qed.
 
+(** *** the Legendre-table hypotheses DISCHARGED from the recurrence of associated_legendre.py
+    (Thm/SymmetryLegendre.v over Model/Legendre.v, arithmetic regenerated from the source).
+    The table is the one the code builds, basis.p[a] = evaluate(n_m = M, n_l = L, x)[|m(a)|] ([leg_basis_p], both layouts;
+    [sq] stands for np.sqrt, any function).  The hypotheses mention only the INPUTS of the recurrence - the nodes
+    x = sin(lat) antisymmetric and the table y = np.sqrt(1 - x*x) symmetric about the equator ([H_x_antisym], [H_y_sym]) -
+    plus the remaining symmetric tables (quadrature weights, sec2_lat / Coriolis / sin(lat)); nothing about Legendre values. *)
+Section C10_from_recurrence.
+  Context {F : Type} {o : Ops F} {Fc : FieldC o}.
+  Variable sq : F -> F.
+  Variables (fast : bool) (R M L I J : nat) (f : nat -> nat -> F) (x y : nat -> F) (wq : nat -> F).
+  Hypothesis HR : layout_ok fast R.
+  Hypothesis HML : (M <= L)%nat.                 (* evaluate raises ValueError otherwise (C01_legendre_accepts) *)
+  Hypothesis Hx : H_x_antisym J x.
+  Hypothesis Hy : H_y_sym J y.
+  Let p := leg_basis_p fast sq J x y M L.
+
+  (** H_parity is a theorem about the recurrence on symmetric nodes; H_p_pairs needs no hypothesis on the nodes *)
+  Theorem C10_H_parity_from_recurrence : H_parity fast R L J p.
+  Proof. exact (H_parity_from_recurrence sq J x y fast R M L HML Hx Hy). Qed.
+
+  Theorem C10_H_p_pairs_from_recurrence : H_p_pairs fast R L J p.
+  Proof. exact (H_p_pairs_from_recurrence sq J x y fast R M L HR). Qed.
+
+  (** the value at the mirrored node, and the support (zero padding rows of the fast layout included) *)
+  Theorem C10_legendre_table_flip a j l :
+    (j < J)%nat ->
+    p a (J - 1 - j)%nat l = sgn (l - sy_wav fast a) * p a j l /\
+    ((l < sy_wav fast a)%nat \/ (L <= l)%nat \/ (M <= sy_wav fast a)%nat -> p a j l = 0).
+  Proof.
+    intros Hj. split; [exact (legendre_evaluate_flip sq J x y M L (sy_wav fast a) j l HML Hx Hy Hj)|].
+    exact (leg_basis_p_support sq J x y fast M L a j l).
+  Qed.
+
+  (** transforms *)
+  Theorem C10_synth_mir_equivariant_from_recurrence ps (xm : marr) i j :
+    (j < J)%nat ->
+    synth R L J f p (mir_modal fast ps xm) i j = sgn_if ps * flip_lat J (synth R L J f p xm) i j.
+  Proof. intros; eapply synth_mir_equivariant; try eassumption. exact C10_H_parity_from_recurrence. Qed.
+
+  Theorem C10_analysis_mir_equivariant_from_recurrence ps (z : marr) a l :
+    H_nodes_sym J wq -> (a < R)%nat -> (l < L)%nat ->
+    analysis R I J f p wq (fun i j => sgn_if ps * flip_lat J z i j) a l = mir_modal fast ps (analysis R I J f p wq z) a l.
+  Proof. intros; eapply analysis_mir_equivariant; try eassumption. exact C10_H_parity_from_recurrence. Qed.
+
+  Theorem C10_synth_rot_equivariant_from_recurrence k c s (xm : marr) i j :
+    H_rot_table fast R I f k c s -> s 0%nat = 0 -> (i < I)%nat -> (j < J)%nat ->
+    synth R L J f p (rot_modal fast c s xm) i j = shift_lon I k (synth R L J f p xm) i j.
+  Proof. intros; eapply synth_rot_equivariant; try eassumption. exact C10_H_p_pairs_from_recurrence. Qed.
+
+  Theorem C10_analysis_rot_equivariant_from_recurrence k c s (z : marr) a l :
+    H_rot_table fast R I f k c s -> H_rot_unit c s -> (a < R)%nat -> (l < L)%nat ->
+    analysis R I J f p wq (shift_lon I k z) a l = rot_modal fast c s (analysis R I J f p wq z) a l.
+  Proof. intros; eapply analysis_rot_equivariant; try eassumption. exact C10_H_p_pairs_from_recurrence. Qed.
+
+  (** primitive equations: explicit tendencies of the mirrored family of columns / of the mirrored MODAL state *)
+  Section PrimEq.
+    Variable c : @PEcfg F.
+    Variables (rad : F) (wa wb : @marr F) (grav : F).
+    Hypothesis Hnod : H_nodes_sym J wq.
+    Let toM := toMc R I J f p wq.
+    Let divc := divcc fast R L rad wa wb.
+    Let curlc := curlcc fast R L rad wa wb.
+    Let lap := lapc L rad.
+    Let clp := clipc L.
+    Let piN := piNc J.
+
+    Theorem C10_primeq_tendency_mirror_equivariant_from_recurrence (m : Moist) (X : Wc -> NCol) (rt q s : Wc -> nat -> F)
+            (orog hum humz : Wc -> F) r a l :
+      (r < cK c)%nat -> (a < R)%nat -> (l < L)%nat ->
+      temp_tendency_explicit Wc Wc toM divc clp c (mirX Wc piN X) r (a, l)
+        = mir_modal fast false (un (temp_tendency_explicit Wc Wc toM divc clp c X r)) a l /\
+      temp_tendency_explicit_moist Wc Wc toM divc clp c m (mirX Wc piN X) (fun n => q (piN n)) r (a, l)
+        = mir_modal fast false (un (temp_tendency_explicit_moist Wc Wc toM divc clp c m X q r)) a l /\
+      tracer_tendency_explicit Wc Wc toM divc clp c (mirX Wc piN X) (fun n => s (piN n)) r (a, l)
+        = mir_modal fast false (un (tracer_tendency_explicit Wc Wc toM divc clp c X s r)) a l /\
+      toM (fun n => log_pressure_tendency c (mirX Wc piN X n)) (a, l)
+        = mir_modal fast false (un (toM (fun n => log_pressure_tendency c (X n)))) a l /\
+      div_tendency_explicit Wc Wc toM divc lap clp c grav (mirX Wc piN X) (fun n => rt (piN n)) (Sec fast orog) (Sec fast hum) r (a, l)
+        = mir_modal fast false (un (div_tendency_explicit Wc Wc toM divc lap clp c grav X rt orog hum r)) a l /\
+      vort_tendency_explicit Wc Wc toM curlc clp c (mirX Wc piN X) (fun n => rt (piN n)) (Soc fast humz) r (a, l)
+        = mir_modal fast true (un (vort_tendency_explicit Wc Wc toM curlc clp c X rt humz r)) a l.
+    Proof.
+      pose proof C10_H_parity_from_recurrence as Hpar.
+      intros; eapply primeq_tendency_mirror_equivariant; eassumption.
+    Qed.
+
+    Theorem C10_primeq_mirrored_state_tendency_from_recurrence (m : Moist) (um vm zeta delta temp : nat -> marr) (gxm gym : marr)
+            (sec2 cor : nat -> F) (rt rt' q q' s s' : Wc -> nat -> F) (orog hum humz : Wc -> F) r a l :
+      let X := cols_of_modal R L J f p um vm zeta delta temp gxm gym sec2 cor in
+      let X' := cols_of_modal R L J f p (fun k => mir_modal fast false (um k)) (fun k => mir_modal fast true (vm k))
+                              (fun k => mir_modal fast true (zeta k)) (fun k => mir_modal fast false (delta k))
+                              (fun k => mir_modal fast false (temp k)) (mir_modal fast false gxm) (mir_modal fast true gym) sec2 cor in
+      (forall j, (j < J)%nat -> sec2 j = sec2 (J - 1 - j)%nat) -> (forall j, (j < J)%nat -> cor j = - cor (J - 1 - j)%nat) ->
+      (forall n, inPc I J n -> rt' n r = rt (piN n) r) -> (forall n, inPc I J n -> q' n r = q (piN n) r) ->
+      (forall n, inPc I J n -> forall k, (k < cK c)%nat -> s' n k = s (piN n) k) ->
+      (r < cK c)%nat -> (a < R)%nat -> (l < L)%nat ->
+      temp_tendency_explicit Wc Wc toM divc clp c X' r (a, l)
+        = mir_modal fast false (un (temp_tendency_explicit Wc Wc toM divc clp c X r)) a l /\
+      temp_tendency_explicit_moist Wc Wc toM divc clp c m X' q' r (a, l)
+        = mir_modal fast false (un (temp_tendency_explicit_moist Wc Wc toM divc clp c m X q r)) a l /\
+      tracer_tendency_explicit Wc Wc toM divc clp c X' s' r (a, l)
+        = mir_modal fast false (un (tracer_tendency_explicit Wc Wc toM divc clp c X s r)) a l /\
+      toM (fun n => log_pressure_tendency c (X' n)) (a, l)
+        = mir_modal fast false (un (toM (fun n => log_pressure_tendency c (X n)))) a l /\
+      div_tendency_explicit Wc Wc toM divc lap clp c grav X' rt' (Sec fast orog) (Sec fast hum) r (a, l)
+        = mir_modal fast false (un (div_tendency_explicit Wc Wc toM divc lap clp c grav X rt orog hum r)) a l /\
+      vort_tendency_explicit Wc Wc toM curlc clp c X' rt' (Soc fast humz) r (a, l)
+        = mir_modal fast true (un (vort_tendency_explicit Wc Wc toM curlc clp c X rt humz r)) a l.
+    Proof.
+      pose proof C10_H_parity_from_recurrence as Hpar.
+      intros X X'; intros; eapply primeq_mirrored_state_tendency; eassumption.
+    Qed.
+  End PrimEq.
+
+  (** shallow water: the whole method on MODAL states, mirror (H_parity discharged) and rotation (H_p_pairs discharged) *)
+  Section ShallowWater.
+    Variables (N : nat) (rad : F) (wa wb : @marr F) (dens : nat -> F).
+
+    Theorem C10_sw_explicit_terms_mirror_equivariant_from_recurrence (omega : F) (sinlat : nat -> F) (orog : option marr)
+            (vort dive pot : nat -> marr) r a l :
+      H_nodes_sym J wq ->
+      (forall j, (j < J)%nat -> sinlat (J - 1 - j)%nat = - sinlat j) ->
+      (r < N)%nat -> (a < R)%nat -> (l < L)%nat ->
+      let E := sw_explicit_terms fast R L I J N f p wq rad wa wb dens omega sinlat in
+      let T := E orog vort dive pot in
+      let T' := E (option_map (mir_modal fast false) orog) (fun k => mir_modal fast true (vort k))
+                  (fun k => mir_modal fast false (dive k)) (fun k => mir_modal fast false (pot k)) in
+      fst (fst T') r (a, l) = mir_modal fast true (un (fst (fst T) r)) a l /\
+      snd (fst T') r (a, l) = mir_modal fast false (un (snd (fst T) r)) a l /\
+      snd T' r (a, l) = mir_modal fast false (un (snd T r)) a l.
+    Proof.
+      pose proof C10_H_parity_from_recurrence as Hpar.
+      intros; eapply sw_explicit_terms_mirror_equivariant; eassumption.
+    Qed.
+
+    Theorem C10_sw_explicit_terms_rot_equivariant_from_recurrence k (rc rs : nat -> F) (omega : F) (sinlat : nat -> F)
+            (orog : option marr) (vort dive pot : nat -> marr) r a l :
+      H_rot_table fast R I f k rc rs -> H_rot_unit rc rs -> sym_rows fast R wa -> sym_rows fast R wb ->
+      (r < N)%nat -> (a < R)%nat -> (l < L)%nat ->
+      let E := sw_explicit_terms fast R L I J N f p wq rad wa wb dens omega sinlat in
+      let T := E orog vort dive pot in
+      let T' := E (option_map (rot_modal fast rc rs) orog) (fun n => rot_modal fast rc rs (vort n))
+                  (fun n => rot_modal fast rc rs (dive n)) (fun n => rot_modal fast rc rs (pot n)) in
+      fst (fst T') r (a, l) = rot_modal fast rc rs (un (fst (fst T) r)) a l /\
+      snd (fst T') r (a, l) = rot_modal fast rc rs (un (snd (fst T) r)) a l /\
+      snd T' r (a, l) = rot_modal fast rc rs (un (snd T r)) a l.
+    Proof.
+      pose proof C10_H_p_pairs_from_recurrence as Hpp.
+      intros; eapply sw_explicit_terms_rot_equivariant; eassumption.
+    Qed.
+  End ShallowWater.
+End C10_from_recurrence.
+
+(** Non-vacuity over Qc: J = 4 nodes x = (-3/5, -5/13, 5/13, 3/5) with y = sqrt(1 - x^2) = (4/5, 12/13, 12/13, 4/5) exactly,
+    np.sqrt := identity (any function is allowed), M = 2, L = 3, reference layout with R = 3 rows: the node hypotheses hold,
+    the recurrence (run by vm_compute) produces non-zero values of both parities, and the two discharged table facts hold
+    on it as the theorems say. *)
+Definition rx (i : nat) : Qc := ex_q [-3 # 5; -5 # 13; 5 # 13; 3 # 5]%Q i.
+Definition ry (i : nat) : Qc := ex_q [4 # 5; 12 # 13; 12 # 13; 4 # 5]%Q i.
+Definition rsq (t : Qc) : Qc := t.
+Definition rp : nat -> nat -> nat -> Qc := leg_basis_p false rsq 4 rx ry 2 3.
+
+Example C10_from_recurrence_example :
+  layout_ok false 3 /\ H_x_antisym 4 rx /\ H_y_sym 4 ry /\
+  (forall j, (j < 4)%nat -> ry j * ry j = leg_y2 (rx j)) /\
+  H_parity false 3 3 4 rp /\ H_p_pairs false 3 3 4 rp /\
+  rp 0%nat 0%nat 1%nat = Q2Qc (-9 # 10) /\ rp 0%nat 3%nat 1%nat = Q2Qc (9 # 10) /\
+  rp 1%nat 1%nat 2%nat = Q2Qc (225 # 169) /\ rp 2%nat 2%nat 2%nat = Q2Qc (-225 # 169) /\ rp 1%nat 0%nat 0%nat = 0.
+Proof.
+  split; [reflexivity|].
+  split. { intros j Hj. destruct j as [|[|[|[|j]]]]; try lia; apply Qc_is_canon; vm_compute; reflexivity. }
+  split. { intros j Hj. destruct j as [|[|[|[|j]]]]; try lia; apply Qc_is_canon; vm_compute; reflexivity. }
+  split. { intros j Hj. destruct j as [|[|[|[|j]]]]; try lia; apply Qc_is_canon; vm_compute; reflexivity. }
+  assert (Hx : H_x_antisym 4 rx).
+  { intros j Hj. destruct j as [|[|[|[|j]]]]; try lia; apply Qc_is_canon; vm_compute; reflexivity. }
+  assert (Hy : H_y_sym 4 ry).
+  { intros j Hj. destruct j as [|[|[|[|j]]]]; try lia; apply Qc_is_canon; vm_compute; reflexivity. }
+  split. { apply (C10_H_parity_from_recurrence rsq false 3 2 3 4 rx ry); [lia|exact Hx|exact Hy]. }
+  split. { apply (C10_H_p_pairs_from_recurrence rsq false 3 2 3 4 rx ry). reflexivity. }
+  repeat split; apply Qc_is_canon; vm_compute; reflexivity.
+Qed.
+
 Print Assumptions C10_rot_group.
 Print Assumptions C10_rot_steps.
 Print Assumptions C10_rot_inverse.
@@ -682,3 +865,15 @@ Print Assumptions C10_sw_explicit_terms_mirror_equivariant.
 Print Assumptions C10_sw_tendency_rot_equivariant.
 Print Assumptions C10_sw_explicit_terms_rot_equivariant.
 Print Assumptions C10_sw_example.
+Print Assumptions C10_H_parity_from_recurrence.
+Print Assumptions C10_H_p_pairs_from_recurrence.
+Print Assumptions C10_legendre_table_flip.
+Print Assumptions C10_synth_mir_equivariant_from_recurrence.
+Print Assumptions C10_analysis_mir_equivariant_from_recurrence.
+Print Assumptions C10_synth_rot_equivariant_from_recurrence.
+Print Assumptions C10_analysis_rot_equivariant_from_recurrence.
+Print Assumptions C10_primeq_tendency_mirror_equivariant_from_recurrence.
+Print Assumptions C10_primeq_mirrored_state_tendency_from_recurrence.
+Print Assumptions C10_sw_explicit_terms_mirror_equivariant_from_recurrence.
+Print Assumptions C10_sw_explicit_terms_rot_equivariant_from_recurrence.
+Print Assumptions C10_from_recurrence_example.
